@@ -258,6 +258,7 @@ def run_harness(hdir, cases, timeout=300, exe="harness", wrapper=None, env_extra
     res = [None] * len(cases)
     start = 0
     crashes = 0
+    timeouts = 0
     env = dict(os.environ)
     env.update(SAN_ENV)
     if env_extra:
@@ -274,6 +275,7 @@ def run_harness(hdir, cases, timeout=300, exe="harness", wrapper=None, env_extra
         except subprocess.TimeoutExpired as e:
             rc, so, se = -9, e.stdout or b"", e.stderr or b""
             timed_out = True
+            timeouts += 1
         out = so.decode(errors="replace").split("\n")
         if out and out[-1] == "":
             out.pop()
@@ -293,6 +295,11 @@ def run_harness(hdir, cases, timeout=300, exe="harness", wrapper=None, env_extra
                 crashes += 1
                 start = start + k + 1
                 done_all = False
+                if timeouts >= 3:
+                    # a non-terminating implementation: do not spend a timeout on every remaining case
+                    for j in range(start, len(cases)):
+                        res[j] = ["CRASH:SKIPPED-AFTER-3-TIMEOUTS"]
+                    start = len(cases)
                 break
         if done_all:
             if rc != 0 and not timed_out:
